@@ -64,6 +64,35 @@ theorem C04.dangling_never_returns (p : Plan) (hd : DisjointOuts p) (hne : Nonem
     obtain ⟨j, sj, hj1, hj2, _⟩ := (rinv_reach hd evs).1 i hstarted st hst u hu
     exact hdang j sj hj1 hj2
 
+/-- a wait-for cycle among steps makes normal return impossible, even when the *feature* graph is acyclic: this is what
+happens when two feature groups depend on each other's features (G1 = {a, b}, G2 = {g, f}, b needs g, f needs a): the
+planner puts {a, b} and {g, f} into one step each, each step waits for a uuid of the other, and `compute` spins. The
+harness confirms the spin on the real code (known finding F-C04-mutual-groups); `planOK` rejects such plans. -/
+theorem C04.wait_cycle_never_returns (p : Plan) (hd : DisjointOuts p) (hne : NonemptyOuts p) (C : Nat → Prop)
+    (hC : ∀ (i : Nat) (st : Step), C i → p[i]? = some st →
+      ∃ u ∈ st.req, ∃ j sj, C j ∧ p[j]? = some sj ∧ u ∈ sj.outs)
+    (i : Nat) (st : Step) (hci : C i) (hst : p[i]? = some st) (evs : List Ev) :
+    (run p init evs).returned = false := by
+  cases hret : (run p init evs).returned with
+  | false => rfl
+  | true =>
+    exfalso
+    have hall := returned_all_finished (p := p) evs init (by simp [init]) hret
+    have hi := (rinv_reach hd evs).2
+    obtain ⟨w, hw⟩ := List.exists_mem_of_ne_nil _ (hne st (List.mem_of_getElem? hst))
+    have hwfin : w ∈ (run p init evs).finished := by
+      simp only [List.all_eq_true, decide_eq_true_eq] at hall
+      apply hall; simp only [allOuts, List.mem_flatMap]; exact ⟨st, List.mem_of_getElem? hst, hw⟩
+    obtain ⟨j, sj, hj1, hj2, hj3⟩ := hi.fin_owner w hwfin
+    have : j = i := hd j i sj st hj2 hst w hj3 hw
+    subst this
+    exact cyclic_never_starts hd C hC evs j hci (hi.begun_sub j (hi.done_sub j (hi.coll_sub j hj1)))
+
+/-- the concrete two-group witness: plan [R → {r}], [{a, b} needs r, g], [{g, f} needs r, a] is rejected by `planOK` -/
+theorem C04.mutual_groups_witness :
+    planOK [{ outs := [0], req := [] }, { outs := [1, 2], req := [0, 4] }, { outs := [4, 3], req := [0, 1] }] = false := by
+  decide
+
 /-- the empty plan is the excluded point of the termination theorem: `compute` never leaves its loop
 (`len(finished_ids) == 0` keeps the condition true) - DESIGN O16, `run_all([])` spins -/
 theorem C04.empty_plan_spins (evs : List Ev) : halted (run ([] : Plan) init evs) = false := by
